@@ -91,6 +91,9 @@ func domainFor(prop string) domain {
 		d.pFault, d.perUnit, d.panics, d.elemFault = 1, 0.3, 0.3, 0.15
 	case "C08":
 		d.pFault, d.perUnit, d.panics, d.elemFault = 0.9, 0.35, 0.3, 0.25
+	case "C05", "C06":
+		d.pFault, d.perUnit, d.panics, d.elemFault, d.cancel, d.predPanic = 0.7, 0.3, 0.4, 0.2, 0.35, 0.15
+		d.g = []int{1, 1, 2, 4}
 	case "C09":
 		d.cancel, d.pFault, d.perUnit = 1, 0.2, 0.2
 	case "C11":
